@@ -284,6 +284,7 @@ theorem C09_no_replace_rejected (s : SState) (now : Int) (a : SchedArgs) (h : In
 
 
 /-! ## non-vacuity: a concrete registry with an active, a paused and an expired-trigger job -/
+namespace C09Ex
 
 def exA : SchedArgs := { group := "g", name := "a", tag := 1, trig := some (.simple 10) }
 def exB : SchedArgs := { group := "g", name := "b", tag := 2, trig := some (.runOnce 5 false) }
@@ -337,5 +338,7 @@ example : ∃ old ∈ exS.q.toList, (old.group = exA'.group ∧ old.name = exA'.
   cases hf
 example : (schedule exS 5 exA').1.q.toList.map (fun e => (e.group, e.name, e.prio, e.tag)) =
     [("g", "a", 42, 4), ("h", "c", maxInt64, 3), ("g", "b", maxInt64, 2)] := by decide +kernel
+
+end C09Ex
 
 end Sched
